@@ -23,7 +23,7 @@ PROPS["C19"] = dict(
                  "VectorBase::minAbs() is not driven: it does not compile (SOPLEX_MIN_element undeclared)"],
     min_nontrivial=dict(quick=4000, thorough=300000),
     stages=[dict(name="main", target="c19", flavour="plain",
-                 quick=dict(cases=1500, maxsize=70), thorough=dict(cases=125000, maxsize=100)),
+                 quick=dict(cases=15000, maxsize=70), thorough=dict(cases=125000, maxsize=100)),
             dict(name="asan", target="c19", flavour="asan", leaks=True,
                  quick=dict(cases=60, maxsize=70, shards=8), thorough=dict(cases=3000, maxsize=100))],
 )
